@@ -14,6 +14,7 @@ import (
 	"io"
 	"os"
 	"strings"
+	"time"
 
 	netty "github.com/go-netty/go-netty"
 	"nvharness/mock"
@@ -107,6 +108,7 @@ type Scenario struct {
 	Until   bool
 	Threads []Thread
 	NCtx    int
+	FailAt  int // 1-based index of the transport write/writev call that fails (0 = none)
 }
 
 type ctlExec struct {
@@ -125,6 +127,15 @@ func runScenario(sc *Scenario, strat rt.Strategy) *rt.Controller {
 	netty.NvRT = c
 	defer func() { netty.NvRT = nil }()
 	tr := mock.NewTransport()
+	if sc.FailAt > 0 {
+		k := sc.FailAt
+		tr.FailWrite = func(n int) error {
+			if n == k {
+				return errors.New("injected")
+			}
+			return nil
+		}
+	}
 	tr.OnCall = func(call mock.Call) {
 		e := ""
 		if call.Err != "" {
@@ -160,10 +171,14 @@ func runScenario(sc *Scenario, strat rt.Strategy) *rt.Controller {
 	}
 	doneCtx, dc := context.WithCancel(context.Background())
 	dc()
+	dlCtx, dlc := context.WithDeadline(context.Background(), time.Now().Add(24*time.Hour))
+	defer dlc()
 	getCtx := func(s string) context.Context {
 		switch {
 		case s == "done":
 			return doneCtx
+		case s == "dl": // live, but carries a (far) deadline
+			return dlCtx
 		case strings.HasPrefix(s, "k"):
 			var n int
 			fmt.Sscanf(s, "k%d", &n)
@@ -246,6 +261,9 @@ func runScenario(sc *Scenario, strat rt.Strategy) *rt.Controller {
 
 func printRun(prop string, sc *Scenario, c *rt.Controller) {
 	emit("%s cfg %d %d %d", prop, b2i(sc.Sync), sc.Qcap, b2i(sc.Until))
+	if sc.FailAt > 0 {
+		emit("%s failwrite %d", prop, sc.FailAt)
+	}
 	for _, th := range sc.Threads {
 		ops := make([]string, len(th.Ops))
 		for i, o := range th.Ops {
